@@ -63,6 +63,9 @@ type rec struct {
 	Y    int    `json:"y"`
 	Sexp *sexpT `json:"sexp"`
 	// generic constructors / converters (op = "Ctor")
+	// Equals with an epsilon dimension: values are integers in units of 2^scale, epsilon = epsu units
+	Scale int    `json:"scale"`
+	Epsu  int    `json:"epsu"`
 	Ctor  string `json:"ctor"`
 	Probe *struct {
 		X   symT `json:"x"`
@@ -153,6 +156,26 @@ func (t *elemType) build(k string, rows, cols int, c [][2]int, st []int, constIm
 
 // buildX: like build, with an IEEE class per element (f == nil: all finite)
 func (t *elemType) buildX(k string, rows, cols int, c [][2]int, f []int, st []int, constImpl bool) cont {
+	return t.buildS(k, rows, cols, c, f, st, constImpl, 0)
+}
+
+// buildS: like buildX, the finite values are c[i][0] * 2^scale (exact dyadic numbers; scale = 0: integers)
+func (t *elemType) buildS(k string, rows, cols int, c [][2]int, f []int, st []int, constImpl bool, scale int) cont {
+	if scale != 0 {
+		f = make([]int, len(c)) // scaled elements take the elemS path below (class 0, no derivatives)
+	}
+	mk := func(v, d, cls int) Scalar {
+		if scale != 0 {
+			return NewScalar(t.st, math.Ldexp(float64(v), scale))
+		}
+		return t.elemX(v, d, cls)
+	}
+	cv := func(v, cls int) float64 {
+		if scale != 0 {
+			return math.Ldexp(float64(v), scale)
+		}
+		return classValue(v, cls)
+	}
 	cl := func(i int) int {
 		if f == nil {
 			return 0
@@ -166,7 +189,7 @@ func (t *elemType) buildX(k string, rows, cols int, c [][2]int, f []int, st []in
 			v := NullDenseVector(t.st, n)
 			for i := 0; i < n; i++ {
 				if nz(i) {
-					v.At(i).Set(t.elemX(c[i][0], c[i][1], cl(i)))
+					v.At(i).Set(mk(c[i][0], c[i][1], cl(i)))
 				}
 			}
 			return cont{vec: v}
@@ -177,7 +200,7 @@ func (t *elemType) buildX(k string, rows, cols int, c [][2]int, f []int, st []in
 			for i := 0; i < n; i++ {
 				if c[i][0] != 0 || (cl(i) != 0 && cl(i) != 4) {
 					idx = append(idx, i)
-					vals = append(vals, classValue(c[i][0], cl(i)))
+					vals = append(vals, cv(c[i][0], cl(i)))
 				}
 			}
 			return cont{cvec: t.newConstVec(idx, vals, n)}
@@ -186,7 +209,7 @@ func (t *elemType) buildX(k string, rows, cols int, c [][2]int, f []int, st []in
 		for _, p := range st {
 			s := v.At(p - 1) // creates the entry: an explicitly stored zero unless set below
 			if nz(p - 1) {
-				s.Set(t.elemX(c[p-1][0], c[p-1][1], cl(p-1)))
+				s.Set(mk(c[p-1][0], c[p-1][1], cl(p-1)))
 			}
 		}
 		return cont{vec: v}
@@ -196,7 +219,7 @@ func (t *elemType) buildX(k string, rows, cols int, c [][2]int, f []int, st []in
 		m = NullDenseMatrix(t.st, rows, cols)
 		for x := 0; x < rows*cols; x++ {
 			if nz(x) {
-				m.At(x/cols, x%cols).Set(t.elemX(c[x][0], c[x][1], cl(x)))
+				m.At(x/cols, x%cols).Set(mk(c[x][0], c[x][1], cl(x)))
 			}
 		}
 	} else {
@@ -205,7 +228,7 @@ func (t *elemType) buildX(k string, rows, cols int, c [][2]int, f []int, st []in
 			x := p - 1
 			s := m.At(x/cols, x%cols)
 			if nz(x) {
-				s.Set(t.elemX(c[x][0], c[x][1], cl(x)))
+				s.Set(mk(c[x][0], c[x][1], cl(x)))
 			}
 		}
 	}
